@@ -168,6 +168,40 @@ def c15(res, tier, seed):
             records.append({"kind": "stacksweep", "rets": rets})
             owners.append(("stack sweep", what, sizes, "rets=%s" % rets))
             res.count(1, ("sweep", what))
+    # ------------------------------------------------------------------ size of regexp code: shapes whose jumps span a body of growing size
+    shapes = [("alt-left", "x(%s|zz)y", b"xzzy"), ("alt-right", "x(zz|%s)y", b"xzzy"), ("star", "x(%s)*y", b"xy"), ("plus", "x(%s)+y", None),
+              ("optional", "x(%s)?y", b"xy"), ("counted", "x(%s){1,2}y", None), ("lazy-star", "x(%s)*?y", b"xy")]
+    sizes = [100, 600, 900, 960, 980, 1000, 1100, 2000] if tier == "quick" else [100, 300, 600, 800, 900, 940, 960, 965, 970, 975, 980, 985, 990, 995, 1000, 1010, 1100, 1500, 2000]
+    from checks import func as _func
+    rgroups = []
+    for nm, shape, small in shapes:
+        for n in sizes:
+            body = "[ab]" * n
+            d1 = b"..x" + (b"ab" * n)[:n] + b"y.."
+            bufs = [d1] + ([b"." + small + b"."] if small else [])
+            rgroups.append({"src": "rule t { strings: $s = /%s/ condition: #s >= 0 }" % (shape % body), "bufs": bufs})
+    rrun, rper = _func.run_rule_cases("asan", rgroups, wd, "c15_resize", hang=120)
+    if not rrun.complete:
+        res.violation("a regular expression near the code size limit crashed the compiler / scanner: %s" % yv.crash_summary(rrun),
+                      yv.save_replay("C15", "crash_resize", {"crash": yv.crash_summary(rrun), "script": rrun.script_path}))
+    gi = 0
+    for nm, shape, small in shapes:
+        steps = []
+        for n in sizes:
+            g = rper.get(gi); gi += 1
+            if g is None or g["compile"] is None: continue
+            code = g["compile"].get("code", 0) if g["compile"]["ret"] > 0 else 0
+            hit = False
+            if code == 0 and g["ok"] and len(g["rets"]) >= 1 and all(x == 0 for x in g["rets"]):
+                m1 = g["scans"][0].get("t", {}).get("strings", {}).get("$s", [])
+                hit = [2, n + 2] in [[o, l] for o, l, kk, pp in m1]
+                if small:
+                    m2 = g["scans"][1].get("t", {}).get("strings", {}).get("$s", [])
+                    hit = hit and [1, len(small)] in [[o, l] for o, l, kk, pp in m2]
+            steps.append({"n": n, "outcome": code, "hit": hit})
+            res.count(1, ("resize", nm, n))
+        records.append({"kind": "resize", "shape": nm, "steps": steps})
+        owners.append(("regexp code size", nm, sizes, "outcomes=%s hits=%s" % ([x["outcome"] for x in steps], [x["hit"] for x in steps])))
     # ------------------------------------------------------------------ match cap in the production build: isolation of the other strings (Scan.tla trace)
     execs = []
     for flood, others in ((1000001, [1, 2]), (1000000, [1, 1]), (1000050, [2, 0])):
